@@ -49,11 +49,6 @@ def zeroLike (e : Expr) : Expr := .zero (shape e) (fi e)
 /-- no simplification at all (the reference instance the theorems are also stated for) -/
 def rbPlain : Rb := fun k aux args => some (.op k aux args)
 
-/-- `isinstance(e, ConstantValue)` -/
-def isConstantValue : Expr → Bool
-  | .int _ | .real _ _ | .cplx _ _ _ _ | .zero _ _ => true
-  | .term d => d.cls == "Identity" || d.cls == "PermutationSymbol"
-  | _ => false
 
 def modelledOp : Op → Bool
   | .sum | .product | .division | .power | .abs | .conj | .real | .imag | .indexed | .indexSum | .componentTensor
